@@ -214,8 +214,9 @@ func (v *Vue) evaluateNodeAsElement(ctx VueContext, node *html.Node, depth int) 
 		return evaluated, nil
 	}
 
-	// Regular element node processing (no v-for)
-	hasVHtml := helpers.GetAttr(node, "v-html") != ""
+	// Regular element node processing (no v-for): the chosen branch is an
+	// ordinary element and gets every directive an unconditional element gets.
+	hasVHtml := helpers.GetAttr(node, "v-html") != "" || helpers.GetAttr(node, "v-text") != ""
 	var newNode *html.Node
 	if hasVHtml {
 		newNode = helpers.DeepCloneNode(node)
@@ -224,6 +225,12 @@ func (v *Vue) evaluateNodeAsElement(ctx VueContext, node *html.Node, depth int) 
 	}
 
 	if err := v.evalVHtml(ctx, newNode); err != nil {
+		return nil, err
+	}
+	if err := v.evalVText(ctx, newNode); err != nil {
+		return nil, err
+	}
+	if err := v.evalVShow(ctx, newNode); err != nil {
 		return nil, err
 	}
 	if _, err := v.evalAttributes(ctx, newNode); err != nil {
